@@ -76,6 +76,12 @@ func main() {
 			fmt.Fprintln(os.Stderr, "INFRA:", err)
 			os.Exit(2)
 		}
+		if *dump == "carried" {
+			for _, l := range props.CarriedSurvey(p) {
+				fmt.Println(l)
+			}
+			return
+		}
 		dumpFuncs(p, *dump)
 		return
 	}
